@@ -20,10 +20,14 @@
 (* invariant says the machine took the same decisions.                     *)
 (*   ClearActive = FALSE is exception_catch as found: `active` survives a  *)
 (*   handled exception and fires again at the end of an enclosing body.    *)
+(*   ObjAfterMsg = FALSE is exception_throw as found: the object is put    *)
+(*   into the record BEFORE the message is formatted, and a message        *)
+(*   argument whose Show instance runs a complete try / throw / catch of   *)
+(*   its own (ThrowNested) leaves ITS object there.                        *)
 (***************************************************************************)
 EXTENDS Integers, Sequences, FiniteSets, TLC, Json
 
-CONSTANTS Kinds, MaxNest, MaxSteps, ClearActive, Emit
+CONSTANTS Kinds, MaxNest, MaxSteps, ClearActive, ObjAfterMsg, Emit
 
 VARIABLES cs,        \* lexical context: sequence of [f |-> filter, pc |-> "body" | "handler"]
           depth, active, obj,      \* the machine
@@ -81,6 +85,17 @@ Throw(e) ==
      ref' = IF r = 0 THEN Append(ref, <<"uncaught", e>>) ELSE Append(ref, <<"h", r, e>>)
   /\ Land(MachTarget(cs, Len(cs), depth, e), e, FALSE)
 
+(* throw e, "...%$...", x where showing x runs a complete construct try { throw k } catch (..) { } of its own (one more level of   *)
+(* nesting for a moment, invisible to the program): block structure says this is a throw of e like any other; the machine matches  *)
+(* the filters against, and binds, whatever object its record holds when it jumps                                                  *)
+ThrowNested(e, k) ==
+  /\ Tick([op |-> "thrownested", e |-> e, k |-> k]) /\ depth < MaxNest + 1
+  /\ LET mobj == IF ObjAfterMsg THEN e ELSE k IN
+     /\ obj' = mobj
+     /\ LET r == RefTarget(cs, e) IN
+        ref' = IF r = 0 THEN Append(ref, <<"uncaught", e>>) ELSE Append(ref, <<"h", r, e>>)
+     /\ Land(MachTarget(cs, Len(cs), depth, mobj), mobj, FALSE)
+
 (* the body of the innermost construct completes normally: exception_try_end, then exception_catch decides *)
 EndBody ==
   /\ Tick([op |-> "endbody"]) /\ cs # <<>> /\ cs[Len(cs)].pc = "body"
@@ -100,6 +115,7 @@ EndHandler ==
 
 Next == \/ \E f \in Filters : EnterTry(f)
         \/ \E e \in Kinds : Throw(e)
+        \/ \E e, k \in Kinds : e # k /\ ThrowNested(e, k)
         \/ Mark \/ EndBody \/ EndHandler
 Spec == Init /\ [][Next]_vars
 
